@@ -2007,6 +2007,12 @@ class _GroupElem(ABC):
 
         if elements_e is None:
             elements_e = self._Get_nearby_elements(coordinates_n)
+            mapping = self._Get_Mapping(coordinates_n, elements_e, needCoordinates)
+            if mapping[0].size == coordinates_n.shape[0] or elements_e.size == self.Ne:
+                return mapping
+            # On stretched elements the node nearest to a point is not always a node of the
+            # element that holds it: search every element for the points still missing.
+            elements_e = np.arange(self.Ne)
 
         return self._Get_Mapping(coordinates_n, elements_e, needCoordinates)
 
